@@ -187,6 +187,12 @@ def gen_c15(rnd, n, thorough=False):
                 sent = rnd.pick([full, full, full[:len(hb)], full[:rnd.randint(1, len(full) - 1)], hb[:16]])
                 announced = len(sent) if sent is full and rnd.chance(0.4) else rnd.pick([2 ** 62, 2 ** 63 - 1, 256 * 2 ** 20, 2 ** 31, 2 ** 32 + 5, len(sent) + 1, len(sent) + 4096, 10 ** 9])
                 add('hremote', 'hremote kind=%s len=%d body=%s' % (kind2, announced, hx(sent)))
+            # name lists (/files, /items) with empty lines, lone CRs, no final newline, one very long line, NULs: the
+            # commands that glob through a server return
+            for _ in range(4):
+                nm = rnd.pick([b"a.wsp\n\nb.wsp\n", b"\na.wsp\n", b"a.wsp\n\n", b"\n", b"\r\n", b"\r", b"a.wsp\r\n\r\nb.wsp", b"i1\n\n\ni2", b"\n\n\n\n",
+                               b"x" * rnd.pick([4095, 4096, 65536, 70000]) + b"\n\n", b"a\x00b\n\n", b"i.1\n\r\n.\n..\n"])
+                add('hremote', 'hremote kind=%s len=%d body=%s' % (rnd.pick(['files', 'items']), len(nm), hx(nm)))
             # an honest, well-formed answer with fewer archives than the archive the user selected
             for aid in rnd.sample([0, 1, 2, 5, -2, 2 ** 31], 3):
                 kind2 = rnd.pick(['view', 'viewraw'])
@@ -457,6 +463,29 @@ def gen_c06(rnd, n, thorough=False):
                     ll += ["gwcreate f %s m %d x %08x" % (fmt_layout(lay), m, xd), "gwmany f %d %d %s" % (nw, len(ptsd), " ".join("%d %016x" % tv for tv in ptsd)), "gwclose f"]
                 ll += ["clixread f %d %d %d" % (nw - 95, nw, nw), "clixread f %d %d %d" % (nw - 9, nw, nw)]
                 cases.append({'id': 'c06-%d-xff-%s' % (c, wr[:2]), 'lines': ll, 'tags': {'layout': 'tens_exact', 'writer': wr + '_decimal_xff', 'levels': len(lay), 'method': m}})
+        if c % 16 == 3:
+            # ONE batch over three (or four) consecutive intervals of the coarser archive of which the middle one stays
+            # below the xFilesFactor: consolidated, not consolidated, consolidated -- each stored aggregate sits in
+            # the slot its own interval names (both writers; every archive read back by both readers)
+            ratio = rnd.pick([5, 10])
+            lay = [(1, 6 * ratio), (ratio, 12)] + ([(ratio * 4, 6)] if rnd.chance(0.4) else [])
+            nw = 1700000000 + ratio * 4 * rnd.randint(0, 10 ** 5) + 4 * ratio - 1        # the last second of a coarser interval
+            base = nw - nw % ratio - 3 * ratio
+            ptsm = []
+            for iv, known in enumerate([ratio - 1, 1, ratio - 2, ratio]):
+                ptsm += [(base + iv * ratio + o_, fbits(float(rnd.randint(1, 99)))) for o_ in sorted(rnd.sample(range(ratio), known))]
+            for wr in ('whispertool', 'go-whisper'):
+                ll = []
+                if wr == 'whispertool':
+                    ll += ["create f %s m %d x 3f000000" % (fmt_layout(lay), m), "many f -1 %d %d %s" % (nw, len(ptsm), " ".join("%d %016x" % tv for tv in ptsm)), "sync f"]
+                    ll += ["dfetch f %d %d %d %d" % (a_, nw - lay[a_][0] * lay[a_][1] + 1, nw, nw) for a_ in range(len(lay))]
+                    ll += ["raw f %d" % a_ for a_ in range(len(lay))]
+                    ll += ["drop f"]
+                else:
+                    ll += ["gwcreate f %s m %d x 3f000000" % (fmt_layout(lay), m), "gwmany f %d %d %s" % (nw, len(ptsm), " ".join("%d %016x" % tv for tv in ptsm)), "gwclose f"]
+                ll += ["clixread f %d %d %d" % (nw - lay[a_][0] * lay[a_][1] + 1, nw, nw) for a_ in range(len(lay))]
+                ll += ["clixread f %d %d %d" % (base - 1, nw, nw)]
+                cases.append({'id': 'c06-%d-midsparse-%s' % (c, wr[:2]), 'lines': ll, 'tags': {'layout': 'midsparse%d' % ratio, 'writer': wr + '_midsparse', 'levels': len(lay), 'method': m}})
         if c % 8 == 1:
             # a file written (by either writer) around the wall clock and read by the view command through a server
             # and through the directory: the reference reader's values, at the times the file holds
